@@ -201,6 +201,31 @@ func TestVerifC18(t *testing.T) {
 					return ""
 				})
 			}
+		case "UnwindTableKind":
+			// the uwtable function attribute has a hand-written printer around the kind
+			for _, c := range en.consts {
+				k := enum.UnwindTableKind(c.val)
+				roundtrip("uwtable kind "+c.name, func(m *ir.Module) {
+					f := m.NewFunc("f", types.Void)
+					f.FuncAttrs = append(f.FuncAttrs, ir.UnwindTable{Kind: k})
+				}, func(m *ir.Module) string {
+					for _, a := range m.Funcs[0].FuncAttrs {
+						switch u := a.(type) {
+						case ir.UnwindTable:
+							if u.Kind != k {
+								return fmt.Sprintf("uwtable kind parsed back as %v", u.Kind)
+							}
+							return ""
+						case *ir.UnwindTable:
+							if u.Kind != k {
+								return fmt.Sprintf("uwtable kind parsed back as %v", u.Kind)
+							}
+							return ""
+						}
+					}
+					return "uwtable attribute lost"
+				})
+			}
 		case "TLSModel":
 			for _, c := range en.consts {
 				tm := enum.TLSModel(c.val)
